@@ -124,6 +124,26 @@ impl Transport for SimNode {
         if st.down {
             return Err(Error::Transport(Box::new(Outage)));
         }
+        // a kill just before the node receives the request / just after it has handled it
+        drop(st);
+        teos_common::verif::crash_point("rpc:pre");
+        let r = self.handle(req);
+        teos_common::verif::crash_point("rpc:post");
+        r
+    }
+
+    fn send_batch(&self, _reqs: &[Request]) -> Result<Vec<Response>, Error> {
+        Err(Error::EmptyBatch)
+    }
+
+    fn fmt_target(&self, f: &mut fmt::Formatter) -> fmt::Result {
+        write!(f, "simnode")
+    }
+}
+
+impl SimNode {
+    fn handle(&self, req: Request) -> Result<Response, Error> {
+        let mut st = self.0.lock().unwrap();
         let params: Vec<serde_json::Value> = match req.params {
             Some(p) => serde_json::from_str(p.get()).unwrap_or_default(),
             None => vec![],
@@ -177,11 +197,4 @@ impl Transport for SimNode {
         }
     }
 
-    fn send_batch(&self, _reqs: &[Request]) -> Result<Vec<Response>, Error> {
-        Err(Error::EmptyBatch)
-    }
-
-    fn fmt_target(&self, f: &mut fmt::Formatter) -> fmt::Result {
-        write!(f, "simnode")
-    }
 }
